@@ -1263,7 +1263,7 @@ func (x *Exec) ghostMapAccess(env *Env, gm *SpecFunc, args []*Expr, e *Expr) (*T
 	st := env.St
 	arr, ok := st.Heap[key]
 	if !ok {
-		arr = Var("H0$"+key, sort)
+		arr = st.lazyVersion(false, key, sort)
 		st.Heap[key] = arr
 	}
 	var idx []*Term
